@@ -457,3 +457,27 @@ func TestF25_ComplexSchemaUnderNot(t *testing.T) {
 		}
 	}
 }
+
+// F26 (C01): a definition of the user's whose name contains "OAIGen" and which is a $ref to a definition of another
+// document was taken for a generated definition, merged into its referers and deleted.
+func TestF26_UserDefinitionNamedLikeGenerated(t *testing.T) {
+	dir := t.TempDir()
+	root := `{"swagger":"2.0","info":{"title":"t","version":"1"},
+ "paths":{"/a":{"get":{"operationId":"getA","responses":{"200":{"description":"ok","schema":{"$ref":"#/definitions/myOAIGenThing"}}}}}},
+ "definitions":{"myOAIGenThing":{"$ref":"sub/aux.json#/definitions/thing"}}}`
+	if err := os.MkdirAll(filepath.Join(dir, "sub"), 0o755); err != nil {
+		t.Fatal(err)
+	}
+	if err := os.WriteFile(filepath.Join(dir, "sub", "aux.json"), []byte(`{"definitions":{"thing":{"type":"object","properties":{"n":{"type":"string"}}}}}`), 0o600); err != nil {
+		t.Fatal(err)
+	}
+	for _, minimal := range []bool{true, false} {
+		sw := load(t, root)
+		if err := analysis.Flatten(analysis.FlattenOpts{Spec: analysis.New(sw), BasePath: filepath.Join(dir, "root.json"), Minimal: minimal}); err != nil {
+			t.Fatalf("flatten: %v", err)
+		}
+		if _, ok := sw.Definitions["myOAIGenThing"]; !ok {
+			t.Errorf("minimal=%v: the pre-existing definition myOAIGenThing has disappeared (RemoveUnused is off)", minimal)
+		}
+	}
+}
